@@ -24,6 +24,8 @@ func runC11(w *World, r *Report) {
 	r.Rule("C11-R4", "only legal transitions are requested", "UpdateTaskState call sites: Running<-{Initial,Paused}, Paused<-{Running} (API), Paused<-any (internal); inside UpdateTaskState the old-state guard dominates Put", 15)
 	r.Rule("C11-R5", "gauges move with persisted transitions", "TaskNumVec.UpdateState after a successful Put; TaskNumVec.Delete after a successful commit; TaskNumVec.Add after the task info was persisted (create) or listed (reload)", 4)
 	r.Rule("C11-R6", "cleanup completeness", "delete: store.DeleteTask (both deletes with the txn object, commit on every path), bookkeeping, cdcTasks entry, quit function; QuitRead: StopReadCollection for every replicated collection and UnsubscribeEvent for both event types", 7)
+	r.Rule("C11-R8", "memory is cleaned only after the persisted deletion", "in (*MetaCDC).delete every in-memory removal (cdcTasks entry, bookkeeping tables, quit function, reference count) is dominated by the success outcome of store.DeleteTask", 4)
+	r.Rule("C11-R9", "a collection handed to the channel manager is tracked for shutdown whatever the outcome", "in CollectionReader.StartRead each StartReadCollection call is followed, also on its failure branch, by replicateCollectionMap.Store of that collection (the manager registers the drop barrier before the channels start; QuitRead only closes what is in the map)", 2)
 	r.Rule("C11-R7", "reload", "ReloadTask puts every listed task into cdcTasks and either pauses it (DisableAutoStart) or starts it", 3)
 
 	// ---------- R1
@@ -524,6 +526,53 @@ func runC11(w *World, r *Report) {
 		for _, k := range []string{"DeleteTask", "names", "exclude", "cdcTasks", "quit"} {
 			r.Check(has[k], "C11-R6", "(*MetaCDC).delete | "+k, del.Pos(), "present", "delete does not clean up "+k)
 		}
+		// R8: nothing is removed from memory before the persisted deletion succeeded
+		var dtCall *ssa.Call
+		eachInstr(del, func(in ssa.Instruction) {
+			if c, ok := in.(*ssa.Call); ok && callSym(c.Common()) == (sym{pkgStore, "", "DeleteTask"}) {
+				dtCall = c
+			}
+		})
+		var okBlock *ssa.BasicBlock
+		if dtCall != nil {
+			ev := extractIdx(dtCall, 1)
+			for _, b := range del.Blocks {
+				v, _, isNil, ok := errNilTest(b)
+				if !ok || ev == nil {
+					continue
+				}
+				for _, x := range backSlice(v, SliceOpts{MaxDepth: 5}) {
+					if x == ev {
+						okBlock = isNil
+					}
+				}
+			}
+		}
+		if okBlock == nil {
+			r.Undecided("C11-R8", "(*MetaCDC).delete | success branch of store.DeleteTask", del.Pos(), "the error test of store.DeleteTask was not found")
+		} else {
+			k := 0
+			eachInstr(del, func(in ssa.Instruction) {
+				what := ""
+				switch x := in.(type) {
+				case *ssa.MapUpdate:
+					what = "update of " + w.accessPath(x.Map)
+				case *ssa.Call:
+					if b, isB := x.Call.Value.(*ssa.Builtin); isB && b.Name() == "delete" {
+						what = "delete from " + w.accessPath(x.Call.Args[0])
+					}
+					if n := callSym(x.Common()).name; n == "GetAndRemove" || n == "Dec" {
+						what = n
+					}
+				}
+				if what == "" {
+					return
+				}
+				k++
+				blk := in.Block()
+				r.Check(blk == okBlock || okBlock.Dominates(blk), "C11-R8", fmt.Sprintf("(*MetaCDC).delete | in-memory removal #%d (%s)", k, what), in.Pos(), "only after store.DeleteTask succeeded", "this in-memory removal is not confined to the success branch of store.DeleteTask: when the store fails the task is still persisted (get/list show it) but the server has forgotten it, so it can neither be paused nor deleted and its readers keep running")
+			})
+		}
 	} else {
 		r.Undecided("C11-R6", "(*MetaCDC).delete", 0, "anchor not found")
 	}
@@ -544,6 +593,60 @@ func runC11(w *World, r *Report) {
 		r.Check(stop && len(unsub) == 2, "C11-R6", "(*CollectionReader).QuitRead | stop and unsubscribe", qr.Pos(), "StopReadCollection for every replicated collection; both event kinds unsubscribed", fmt.Sprintf("QuitRead stops collections=%v and unsubscribes %d of 2 event kinds: a paused task keeps receiving catalog events or keeps streams open", stop, len(unsub)))
 	} else {
 		r.Undecided("C11-R6", "QuitRead", 0, "anchor not found")
+	}
+
+	// ---------- R9
+	if sr := w.Func(pkgReader, "CollectionReader", "StartRead"); sr != nil {
+		k := 0
+		for _, g := range familyOf(sr).Funcs {
+			eachInstr(g, func(in ssa.Instruction) {
+				c, ok := in.(*ssa.Call)
+				if !ok || !c.Call.IsInvoke() || c.Call.Method.Name() != "StartReadCollection" {
+					return
+				}
+				k++
+				cons := fmt.Sprintf("%s | StartReadCollection#%d tracked on failure", shortFn2(g), k)
+				var nn *ssa.BasicBlock
+				for _, b := range g.Blocks {
+					v, n1, _, ok := errNilTest(b)
+					if !ok {
+						continue
+					}
+					for _, x := range backSlice(v, SliceOpts{MaxDepth: 5}) {
+						if x == ssa.Value(c) {
+							nn = n1
+						}
+					}
+				}
+				if nn == nil {
+					r.Undecided("C11-R9", cons, c.Pos(), "the error test of StartReadCollection was not found")
+					return
+				}
+				hdr := loopHeaderOf(c.Block())
+				stop := map[*ssa.BasicBlock]bool{}
+				if hdr != nil {
+					stop[hdr] = true
+				}
+				reach := blockReach(nn, stop)
+				reach[nn] = true
+				tracked := false
+				for b := range reach {
+					for _, in2 := range b.Instrs {
+						if c2, isC := in2.(*ssa.Call); isC && callSym(c2.Common()).name == "Store" {
+							if rv := callRecv(c2.Common()); rv != nil && strings.HasSuffix(w.accessPath(rv), ".replicateCollectionMap") {
+								tracked = true
+							}
+						}
+					}
+				}
+				r.Check(tracked, "C11-R9", cons, c.Pos(), "replicateCollectionMap.Store is reached on the failure branch too", "when StartReadCollection fails half way the collection is not recorded: QuitRead never calls StopReadCollection for it, its drop barrier goroutine and its replicateCollections entry stay, and a resumed task is refused the collection")
+			})
+		}
+		if k < 2 {
+			r.Fail("C11-R9", "StartRead | StartReadCollection census", sr.Pos(), fmt.Sprintf("only %d StartReadCollection calls found (2 confirmed)", k))
+		}
+	} else {
+		r.Undecided("C11-R9", "StartRead", 0, "anchor not found")
 	}
 
 	// ---------- R7
